@@ -16,6 +16,9 @@ import (
 
 // C10 - the orientation predicate returns the exact sign.
 
+// c10Bufs are argument buffers that live as long as the worker process.
+var c10Bufs [3][2]float64
+
 var c10perms = [6][3]int{{0, 1, 2}, {1, 2, 0}, {2, 0, 1}, {1, 0, 2}, {0, 2, 1}, {2, 1, 0}}
 
 // c10Check evaluates both entry points on all six argument orders of one triple.
@@ -38,12 +41,25 @@ func c10Check(c *fw.Ctx, pts [3][2]float64, class string) {
 	default:
 		c.Count("exact_cw")
 	}
+	reuse := c.R.Bool()
+	if reuse {
+		c.Count("calls_through_reused_argument_buffers")
+	}
 	for pi, pm := range c10perms {
 		w := want
 		if pi >= 3 {
 			w = -want
 		}
 		o, e, p := geom.Coord(pts[pm[0]][:]), geom.Coord(pts[pm[1]][:]), geom.Coord(pts[pm[2]][:])
+		if reuse {
+			// the caller keeps three coordinate buffers and overwrites them from
+			// call to call: an implementation that remembers a slice it was given
+			// (to recognise "the same" argument later) sees new contents in it
+			copy(c10Bufs[0][:], o)
+			copy(c10Bufs[1][:], e)
+			copy(c10Bufs[2][:], p)
+			o, e, p = geom.Coord(c10Bufs[0][:2]), geom.Coord(c10Bufs[1][:2]), geom.Coord(c10Bufs[2][:2])
+		}
 		var g1, g2 orientation.Type
 		if c.Guard("panic", func() {
 			g1 = bigxy.OrientationIndex(o, e, p)
@@ -284,6 +300,67 @@ func c10Big(c *fw.Ctx, idx int) {
 	}
 }
 
+// (iii') lattice triples within +-2^26: every ordinate is an integer below 2^26
+// in magnitude, but the points sit in opposite corners of that square, so the
+// edge vectors reach 2^27 and their products 2^54 - beyond what a double holds
+// exactly - while the exact determinant is -2..2
+func c10Lattice26(c *fw.Ctx, idx int) {
+	r := c.R
+	const R = 1<<26 - 1
+	ord := func() int64 {
+		switch r.Intn(4) {
+		case 0:
+			return R - int64(r.Intn(16))
+		case 1:
+			return -R + int64(r.Intn(16))
+		case 2:
+			return int64(r.Range(-R, R))
+		}
+		s := int64(1)
+		if r.Bool() {
+			s = -1
+		}
+		return s * (int64(1)<<uint(r.Range(20, 25)) + int64(r.Range(-3, 3)))
+	}
+	for try := 0; try < 40; try++ {
+		ox, oy, ex, ey := ord(), ord(), ord(), ord()
+		dx, dy := ex-ox, ey-oy
+		if dx == 0 || dy == 0 {
+			continue
+		}
+		if g, _, _ := egcd(abs64(dx), abs64(dy)); g != 1 {
+			continue
+		}
+		_, x, y := egcd(dx, dy)
+		if dx*x+dy*y < 0 {
+			x, y = -x, -y
+		}
+		v0, u0 := x, -y // dx*v0 - dy*u0 = 1
+		// reduce (u0,v0) modulo (dx,dy): the determinant does not change
+		q := int64(math.Round(float64(u0) / float64(dx)))
+		u0, v0 = u0-q*dx, v0-q*dy
+		k := int64(r.Range(-2, 2))
+		for _, t := range []int64{0, 1, -1} {
+			for _, base := range [][2]int64{{ox, oy}, {ex, ey}} {
+				px, py := base[0]+k*u0+t*dx, base[1]+k*v0+t*dy
+				if abs64(px) > R || abs64(py) > R || (k == 0 && t == 0) {
+					continue
+				}
+				c.Count("lattice26_triples")
+				if abs64(dx) >= 1<<26 || abs64(dy) >= 1<<26 {
+					c.Count("lattice26_edge_vector_over_2^26")
+				}
+				c10Check(c, [3][2]float64{{float64(ox), float64(oy)}, {float64(ex), float64(ey)}, {float64(px), float64(py)}}, "lattice26")
+				if c.WantSample() {
+					c.Sample(c.Input())
+				}
+				return
+			}
+		}
+	}
+	c.Count("skipped_out_of_band")
+}
+
 func abs64(v int64) int64 {
 	if v < 0 {
 		return -v
@@ -314,6 +391,7 @@ func init() {
 			{Name: "grid7", Quick: 117649, Thorough: 117649, Run: c10Grid, Exhaustive: "every ordered triple of points of a 7x7 integer grid, all 6 argument orders"},
 			{Name: "near-collinear", Quick: 15000, Thorough: 400000, Run: c10Near},
 			{Name: "wide-span", Quick: 40000, Thorough: 2000000, Run: c10Wide},
+			{Name: "lattice26", Quick: 40000, Thorough: 2000000, Run: c10Lattice26},
 			{Name: "bigint", Quick: 40000, Thorough: 2000000, Run: c10Big},
 			{Name: "random", Quick: 50000, Thorough: 500000, Run: c10Random},
 		},
